@@ -97,6 +97,9 @@ func (p *profile) Canonicalize(u *url.Url) (*url.Url, error) {
 		}
 		if u.Hash() != "" {
 			u.SetHash(decodeEncode(strings.TrimPrefix(u.Hash(), "#"), url.HostPercentEncodeSet))
+		} else {
+			// An empty fragment ("http://host/#") is equivalent to no fragment at all.
+			u.SetHash("")
 		}
 	}
 
